@@ -131,3 +131,27 @@ theorem padDecInt_nonneg (w : Nat) (n : Int) (h : 0 ≤ n) : padDecInt w n = pad
   unfold padDecInt; rw [if_neg (by omega)]
 
 end U
+
+namespace U
+
+theorem ofDigits_lt (s : Bytes) (acc : Nat) (h : allDigits s = true) :
+    ofDigits s acc < (acc + 1) * 10 ^ s.length := by
+  induction s generalizing acc with
+  | nil => simp [ofDigits]
+  | cons c t ih =>
+    simp only [allDigits, List.all_cons, Bool.and_eq_true] at h
+    have hc := h.1
+    simp only [isDigit, Bool.and_eq_true, decide_eq_true_eq] at hc
+    have := ih (acc * 10 + (c - 48)) (by simpa [allDigits] using h.2)
+    simp only [ofDigits, List.length_cons, Nat.pow_succ]
+    have hle : (acc * 10 + (c - 48) + 1) ≤ (acc + 1) * 10 := by omega
+    calc ofDigits t (acc * 10 + (c - 48)) < (acc * 10 + (c - 48) + 1) * 10 ^ t.length := this
+      _ ≤ ((acc + 1) * 10) * 10 ^ t.length := Nat.mul_le_mul_right _ hle
+      _ = (acc + 1) * (10 ^ t.length * 10) := by rw [Nat.mul_assoc, Nat.mul_comm 10]
+
+/-- a digit string of length `k` is below `10^k` -/
+theorem val_lt (s : Bytes) (h : allDigits s = true) : val s < 10 ^ s.length := by
+  have := ofDigits_lt s 0 h
+  simpa [val] using this
+
+end U
